@@ -481,6 +481,7 @@ pub fn check_timer(case: &TimerCase) -> CaseResult {
     };
     let mut timer = match case.ctor % 3 {
         0 => Timer::start_now_with_timesource(ts.clone()),
+        1 if case.ctor & 64 != 0 => metrique_timesource::with_time_source(ts.clone(), Timer::start_now),
         1 => {
             let _g = set_time_source(ts.clone());
             Timer::start_now()
@@ -648,8 +649,18 @@ pub fn check_ts(case: &TsCase) -> CaseResult {
         2 => {
             classes.push("source-runtime");
             let rt = tokio::runtime::Builder::new_current_thread().build().unwrap();
+            // installed from inside the runtime, or from outside through its handle
+            let outside = if case.fmt & 0x40 != 0 {
+                Some(metrique_timesource::tokio::set_time_source_for_runtime(rt.handle(), ts.clone()))
+            } else {
+                None
+            };
             let r = rt.block_on(async {
-                let _g = metrique_timesource::tokio::set_time_source_for_current_runtime(ts.clone());
+                let _g = if outside.is_none() {
+                    Some(metrique_timesource::tokio::set_time_source_for_current_runtime(ts.clone()))
+                } else {
+                    None
+                };
                 let a = (Timestamp::now(), TimestampOnClose::default());
                 // thread-local wins over the runtime source
                 let _tl = set_time_source(decoy_ts.clone());
@@ -657,6 +668,7 @@ pub fn check_ts(case: &TsCase) -> CaseResult {
                 (a, inner.as_std() == UNIX_EPOCH + Duration::from_secs(7))
             });
             vensure!(r.1, "timesource:precedence", "thread-local source must win over the runtime source");
+            drop(outside);
             // after the guards are gone the system clock is back
             let sys = time_source().system_time().as_std();
             vensure!(
@@ -754,7 +766,7 @@ pub fn run(ctx: &mut Ctx) {
     ctx.explore(
         SubCfg::new(
             "c18-timer",
-            "Timer (explicit source / start_now / default under a thread-local override) with sequences of advance / stop / close-by-reference: first stop fixes creation->stop, later stops and closes return the same, unstopped close = creation->close. Non-trivial = a stop or close after the clock moved past the first stop",
+            "Timer (explicit source / start_now / default under a thread-local override set by set_time_source or with_time_source) with sequences of advance / stop / close-by-reference: first stop fixes creation->stop, later stops and closes return the same, unstopped close = creation->close. Non-trivial = a stop or close after the clock moved past the first stop",
             if q { 30_000 } else { 500_000 },
         )
         .threads(ctx.tier.pick(8, 16))
@@ -779,7 +791,7 @@ pub fn run(ctx: &mut Ctx) {
     ctx.explore(
         SubCfg::new(
             "c18-timestamps",
-            "Timestamp (creation) and TimestampOnClose (close) under explicit / thread-local / tokio-runtime / nested thread-local time sources with the wall clock moved between creation and close, formatted as EpochSeconds / EpochMillis / EpochMicros / default; source precedence explicit > thread-local > runtime > system and guard restoration checked. Non-trivial = wall clock moved before close",
+            "Timestamp (creation) and TimestampOnClose (close) under explicit / thread-local / tokio-runtime (installed from inside, or from outside through the runtime handle) / nested thread-local time sources with the wall clock moved between creation and close, formatted as EpochSeconds / EpochMillis / EpochMicros / default; source precedence explicit > thread-local > runtime > system and guard restoration checked. Non-trivial = wall clock moved before close",
             if q { 6_000 } else { 100_000 },
         )
         .mandatory(&["source-explicit-over-thread-local", "source-thread-local", "source-runtime", "source-nested-thread-local"]),
